@@ -158,6 +158,10 @@ def check(run, repo, world):
 def _frame_arg_ok(world, modname, fn, a):
     if isinstance(a, ast.Constant) and a.value is None:
         return True
+    if isinstance(a, ast.IfExp):
+        # `None if x == 'no' else x`: either arm
+        return _frame_arg_ok(world, modname, fn, a.body) and \
+            _frame_arg_ok(world, modname, fn, a.orelse)
     if isinstance(a, ast.Call):
         k = world.resolve_class(modname, a.func)
         return k is not None and k.qname in FRAME_CLASSES
@@ -857,6 +861,16 @@ def _check_wait_iff_query(run, repo, world):
                       (HID + ".tridonic", ("event.wait()",))):
         owner, fn = _fn(world, cq, "_send_raw")
         Q = cq + "._send_raw"
+        # the tridonic sender waits on the event it registered in
+        # self._outstanding[seq] = (<event>, <messages>), whatever it is called
+        for n in ast.walk(fn):
+            if isinstance(n, ast.Assign) and any(
+                    isinstance(t, ast.Subscript) and unparse(
+                        t.value) == "self._outstanding"
+                    for t in n.targets) and isinstance(
+                        n.value, ast.Tuple) and n.value.elts and isinstance(
+                            n.value.elts[0], ast.Name):
+                waits = waits + ("%s.wait()" % n.value.elts[0].id,)
         cfg = CFG(fn, may_raise=suspension_may_raise, name=Q)
         W = _cond_worlds(cfg)
         p = fn.args.args[1].arg
